@@ -180,43 +180,8 @@ theorem c05_concurrency_invariant : ∀ (batches : List (List FrameIn)) (c : H2C
     simp only [List.foldl_cons]
     apply ih
     -- one step: a batch, then stream processing
-    have hbatch : ∀ (fs : List FrameIn) (c : H2Conn), c.streams.length ≤ Extracted.h2MaxStreams →
-        (recvBatch c fs).1.streams.length ≤ Extracted.h2MaxStreams := by
-      intro fs
-      induction fs with
-      | nil => intro c h; simpa [recvBatch] using h
-      | cons f fs ihf =>
-        intro c h
-        simp only [recvBatch]
-        apply ihf
-        have h0 : (if (match f with
-              | .headers sid _ _ _ _ _ =>
-                decide (c.goaway = 0) && decide (sid > c.cid) && decide (sid % 2 = 1)
-                  && decide (c.streams.length ≥ Extracted.h2MaxStreams) && c.streams.any (·.err)
-              | _ => false) = true then processPass c 262144 else (c, [])).1.streams.length
-            ≤ Extracted.h2MaxStreams := by
-          split
-          · exact Nat.le_trans (processPass_len_le _ _) h
-          · exact h
-        have h1 := recvFrame_len_le _ f h0
-        split
-        · exact Nat.le_trans (processPass_len_le _ _) (by simpa using h1)
-        · exact h1
-    have hq : ∀ (fuel : Nat) (c : H2Conn), c.streams.length ≤ Extracted.h2MaxStreams →
-        (processQuiesce fuel c).1.streams.length ≤ Extracted.h2MaxStreams := by
-      intro fuel
-      induction fuel with
-      | zero => intro c h; simpa [processQuiesce] using h
-      | succ n ihn =>
-        intro c h
-        simp only [processQuiesce]
-        have hp := Nat.le_trans (processPass_len_le c 262144) h
-        split
-        · exact hp
-        · exact ihn _ hp
     unfold h2Step
-    simp only
-    exact hq _ _ (hbatch _ _ h)
+    exact Nat.le_trans (processQuiesce_len_le _ _) (recvBatch_len_le _ _ h)
 
 theorem c05_advertised_concurrency : Extracted.h2MaxStreams = Extracted.h2AdvMaxConcurrent := by decide
 
